@@ -99,7 +99,7 @@ Proof. exact scopes_count_held_i. Qed.
 Print Assumptions c07_scopes_count_held_streams.
 
 (* ---- non-vacuity ------------------------------------------------------------ *)
-Definition nolim : cfg := mkCfg (fun _ => -1) (fun _ => -1) false.
+Definition nolim : cfg := mkCfg (fun _ => -1) (fun _ => -1) false false.
 
 (* a reachable obtained stream through SelectOneOf (second proposal, match
    function handler registered first wins over the exact one) *)
@@ -175,7 +175,7 @@ Proof. vm_compute. discriminate. Qed.
 (* what the basic host does in the same two situations (the model): the
    listener resets without dispatching / the open fails; accepted by the monitor *)
 Example basic_host_same_situations_accepted :
-  let c := mkCfg (fun p => if p =? 6 then 0 else -1) (fun p => if p =? 5 then 0 else -1) false in
+  let c := mkCfg (fun p => if p =? 6 then 0 else -1) (fun p => if p =? 5 then 0 else -1) false true in
   holds 8 true (limL c) (trace_i 8 c init_st [OAdd 5; OBatch [mkReq [5] [] false false];
                                                OAdd 6; OBatch [mkReq [6] [] false false]]) = true.
 Proof. vm_compute. reflexivity. Qed.
@@ -205,4 +205,38 @@ Proof. vm_compute. discriminate. Qed.
 Example monitor_accepts_stale_choice_on_old_connection :
   monitor_case [7; 0; 0; 2; -1; -1; -1; -1;  1; 0; 1; 0;  4; 1; 0; 1; 0;  3; 0; 0;  1; 1; 1; 1;
                 5; 1; 0; 2; 0; 1;  0; 0; 0; -1; -1; 0; -1; -1;  0;  1; 0;  0; 0; 0; 0] = [].
+Proof. vm_compute. reflexivity. Qed.
+
+(* ---- the first operations on the stream; SetProtocol once more ------------------ *)
+(* The dialer's first operations (Write/Read in either order, SetDeadline, CloseWrite
+   before or after the Write, CloseRead) are a field of the open the model does not
+   look at: whatever they are, a stream bound to a served protocol works.  So the
+   trace of m5 (accurate knowledge, CloseWrite first = mode 16, the handler never
+   runs, the answer cannot be read) is rejected like any returned stream that fails
+   without excuse: *)
+Example monitor_rejects_lazy_stream_dead_after_closewrite :
+  monitor_case [7; 1; 1; 2; -1; -1; -1; -1;  1; 0; 1; 0;  4; 1; 0; 1; 0;
+                5; 1; 16; 1; 0;  0; 0; 0; -1; -1; 0; -1; -1;  0;  1; 0;  0; 0; 0; 0] <> [].
+Proof. vm_compute. discriminate. Qed.
+
+(* a held stream goes on reporting the protocol it is attached to on both ends when
+   SetProtocol is tried once more (model, real resource manager) *)
+Example relabel_is_refused_and_changes_nothing :
+  let c := mkCfg (fun _ => -1) (fun _ => -1) false true in
+  let tr := trace_i 4 c init_st [OAdd 1; OBatch [mkReq [1] [] false false]; ORelabel 0 1 3] in
+  nth 2 tr (OAdd 0, ObMux []) = (ORelabel 0 1 3, ObRelabel 1 1 1).
+Proof. vm_compute. reflexivity. Qed.
+
+(* ... and the monitor rejects the trace of m7's stream-level class: after the refused
+   second SetProtocol the listener's end reports no protocol *)
+Example monitor_rejects_label_lost_by_refused_setprotocol :
+  monitor_case [7; 1; 1; 2; -1; -1; -1; -1;  1; 1; 1; 1;
+                5; 1; 0; 1; 1;  0; 1; 1; 0; 1; 1; 0; 1;  0;  1; 1;  0; 1; 0; 1;
+                8; 0; 1; 0;  1; 1; -1] <> [].
+Proof. vm_compute. discriminate. Qed.
+
+Example monitor_accepts_label_kept :
+  monitor_case [7; 1; 1; 2; -1; -1; -1; -1;  1; 1; 1; 1;
+                5; 1; 0; 1; 1;  0; 1; 1; 0; 1; 1; 0; 1;  0;  1; 1;  0; 1; 0; 1;
+                8; 0; 1; 0;  1; 1; 1] = [].
 Proof. vm_compute. reflexivity. Qed.
